@@ -472,6 +472,55 @@ Definition direct_shape (o : obs) : bool :=
    | [_] | [false; _] | [false; false; true] => true
    | _ => false end).
 
+(** MTU recomputed from the input segments and the decoded path only (no use of
+    the rendering above): every path segment has to be explained by an input
+    segment of the matching role, a cut index and a peer entry with the same
+    timestamp, Peer flag and hop fields; the MTU must be the minimum of 65535
+    and the MTU fields of the entries so explained (all explanations are tried). *)
+Definition explain (sg : segment) (sc peer : nat) : option (list hopf * list N) :=
+  match skipn sc (sg_entries sg) with
+  | [] => None
+  | c :: rest =>
+    let tail_m := flat_map (fun a => (if ae_inmtu a =? 0 then [] else [u16 (ae_inmtu a)]) ++ [u16 (ae_mtu a)])
+                           (rev rest) in
+    match peer with
+    | O => Some (ae_hop c :: map ae_hop rest,
+                 tail_m ++ (if (ae_inmtu c =? 0) || negb (Nat.eqb sc 0) then [] else [u16 (ae_inmtu c)])
+                        ++ [u16 (ae_mtu c)])
+    | S k => match nth_error (ae_peers c) k with
+             | Some p => Some (pe_hop p :: map ae_hop rest, tail_m ++ [u16 (pe_mtu p)] ++ [u16 (ae_mtu c)])
+             | None => None
+             end
+    end
+  end.
+
+Definition cuts_of (sg : segment) (core : bool) : list (nat * nat) :=
+  if core then [(O, O)]
+  else flat_map (fun ic => map (pair (fst ic)) (seq 0 (S (length (ae_peers (snd ic))))))
+                (enum (sg_entries sg)).
+
+Definition seg_mtu_cands (inf : info) (ch : list hopf) (core : bool) (sg : segment) : list (list N) :=
+  if i_ts inf =? u32 (sg_ts sg) then
+    flat_map (fun cp => match explain sg (fst cp) (snd cp) with
+                        | Some (hs, mt) =>
+                          if list_eqb hopf_eqb hs ch && Bool.eqb (negb (Nat.eqb (snd cp) 0)) (i_peer inf)
+                          then [mt] else []
+                        | None => []
+                        end) (cuts_of sg core)
+  else [].
+
+Definition slice_mtu_cands (ups cores downs : list segment) (inf : info) (hops : list hopf) : list (list N) :=
+  let ch := if i_consdir inf then hops else rev hops in   (* construction order *)
+  if i_consdir inf then flat_map (seg_mtu_cands inf ch false) downs
+  else flat_map (seg_mtu_cands inf ch false) ups ++ flat_map (seg_mtu_cands inf ch true) cores.
+
+Definition direct_mtu_ok (ups cores downs : list segment) (o : obs) : bool :=
+  let lens := firstn (length (o_infos o)) (o_seglen o) in
+  let cands := map (fun ih => slice_mtu_cands ups cores downs (fst ih) (snd ih))
+                   (List.combine (o_infos o) (split_hops lens (o_hops o))) in
+  existsb (fun mt => o_mtu o =? fold_left N.min mt 65535)
+          (fold_right (fun cs acc => flat_map (fun t => map (app t) acc) cs) [[]] cands).
+
 Definition ok28 (src dst : N) (ups cores downs : list (N * segment)) (find_all : bool)
                 (os : list obs) : bool :=
   let segs := insegs ups cores downs in
@@ -482,6 +531,7 @@ Definition ok28 (src dst : N) (ups cores downs : list (N * segment)) (find_all :
     forallb (fun o => mem_obs o cand_all) os &&
     forallb direct_shape os &&
     forallb (fun o => o_exp o =? direct_exp o) os &&
+    forallb (direct_mtu_ok (segs_of ups) (segs_of cores) (segs_of downs)) os &&
     forallb (fun o => negb (is_long (o_ifs o))) os &&
     sorted_w os &&
     (find_all ||
